@@ -386,8 +386,10 @@ func (p *refParser) value(i, depth int) (*Node, int, bool) {
 // refSkip returns the end offset of the first value of d, whether it is
 // well-formed, and its nesting depth. It does not build a tree.
 func refSkip(d []byte) (end int, depth int, ok bool) {
-	n, ok := refParse(d, false)
-	if !ok {
+	p := &refParser{d: d}
+	n, _, ok := p.value(skipWS(d, 0), 1)
+	if !ok || p.tooDeep {
+		// nesting beyond the model's own hard limit counts as "no exact end known"
 		return 0, 0, false
 	}
 	return n.End, n.Depth, true
